@@ -31,8 +31,12 @@ def model_attrs(sparse=False, feat_rows=False, curated=True, no_features=False, 
     tdata = Arr((Tmpl, Samp, Loc if sparse else Chan), AMPWH)
     st_arr = Arr((Spike,), Ix(Tmpl))
     sc_arr = Arr((Spike,), Ix(Clu))
+    wmi_, wm_ = Arr((Chan, Chan), WHI), Arr((Chan, Chan), WH)
+    # whitened = raw @ wm, raw = whitened @ wmi: both multiply from the right on their first ('in') axis
+    wmi_.roles, wmi_.role_name = ('in', 'out'), 'inverse whitening matrix'
+    wm_.roles, wm_.role_name = ('in', 'out'), 'whitening matrix'
     a = {
-        'wmi': Arr((Chan, Chan), WHI), 'wm': Arr((Chan, Chan), WH),
+        'wmi': wmi_, 'wm': wm_,
         'channel_positions': Arr((Chan, XY), UM), 'channel_shanks': Arr((Chan,), Ix(Shank)),
         'channel_probes': Arr((Chan,), Ix(Probe)), 'channel_mapping': Arr((Chan,), Ix(RawChan)),
         'n_closest_channels': Q(), 'amplitude_threshold': Q(), 'template_scaling': Q(),
@@ -210,6 +214,8 @@ def c13_a1(ctx):
         for nofeat in ((False, True) if meth == 'make_depths' else (False,)):
             S, saved, fi = alf_run(repo, meth, attrs=model_attrs(no_features=nofeat))
             for r in S.reports:
+                if r.kind in ('dim', 'role'):
+                    continue        # physical units / matrix orientation are C14's and C09's obligations, not a table-dimension conflict
                 nrep += 1
                 ctx.violated('C13.A1', r.fi, r.node, '[%s] %s' % (meth, r.msg))
             for nm, (node, arr) in saved.items():
